@@ -32,6 +32,15 @@ def conf_path_local(rc):
     return None
 
 
+def _through(cx, e):
+    """the expression with single-definition locals read through (`loc = ''; return loc` is `return ''`)"""
+    from .common import inline_ast
+    try:
+        return inline_ast(cx, e) if e is not None else e
+    except Exception:
+        return e
+
+
 def run(R):
     P = R.P
     rc = ctx(R, RC)
@@ -234,7 +243,7 @@ def run(R):
             outer = [r for r in rets if r not in inner]
             good = from_platform and len(inner) == 1 and len(exists) == 1 and \
                 inner[0].id not in gp.cfg.reachable(removed_edges={(exists[0].id, True)}) and \
-                all(isinstance(r.ast.value, ast.Constant) and not r.ast.value.value for r in outer) and \
+                all(isinstance(_through(gp, r.ast.value), ast.Constant) and not _through(gp, r.ast.value).value for r in outer) and \
                 not any(isinstance(x, ast.Continue) for x in ast.walk(lp.ast))
         if good:
             R.ok('C20.TBL.1', inst, site(gp, loops[0].ast))
@@ -370,8 +379,8 @@ def run(R):
         for v in dom.values:
             removed = pruned_edges(dk, var, dom, v)
             reach = dk.cfg.reachable(removed_edges=removed, follow_exc=False)
-            built = {ast.unparse(n.ast.value.func) for n in dk.cfg.nodes if n.id in reach and n.kind == 'stmt' and isinstance(n.ast, ast.Assign)
-                     and isinstance(n.ast.value, ast.Call) and ast.unparse(n.ast.value.func) in wantmap.values()}
+            built = {ast.unparse(c_.func) for n in dk.cfg.nodes if n.id in reach and n.kind in ('stmt', 'return') and n.ast is not None
+                     for c_ in ast.walk(n.ast) if isinstance(c_, ast.Call) and ast.unparse(c_.func) in wantmap.values()}
             inst = f'default_keychain :: {var} {v}'
             if v not in dom.legal:
                 if dk.cfg.exit.id in reach:
